@@ -298,6 +298,14 @@ static void do_send(uint64_t me, struct gm_state *s, const struct gm_act *ac, do
 		pr = (r >> 50) & 3; /* few distinct payloads: ties that only the payload resolves, and full duplicates */
 	for(unsigned i = 0; i < psz; i++)
 		pl[i] = (unsigned char)(pr >> ((i & 7) * 8)) + (unsigned char)(i >> 3);
+	/* payloads longer than the 32 bytes kept inside struct lp_msg: every other one has a constant first part, so that
+	 * simultaneous events of equal type and size often differ only in the continuation of the payload */
+	int const_prefix = psz > 32 && ((r >> 58) & 1);
+	if(const_prefix) {
+		for(unsigned i = 0; i < 32; i++)
+			pl[i] = (unsigned char)(psz + i);
+		ntype &= 7; /* few types, so that such events also tie on the type */
+	}
 	/* delay */
 	double t;
 	int zero = ttl > 0 && ((r >> 44) & 255) < g->zero_delay;
@@ -323,7 +331,7 @@ static void do_send(uint64_t me, struct gm_state *s, const struct gm_act *ac, do
 		if(!chain_child)
 			ntype |= (ttl - 1) << 3;
 	} else {
-		ntype |= (unsigned)(((r >> 26) & 3) << 3);
+		ntype |= const_prefix ? 1u << 3 : (unsigned)(((r >> 26) & 3) << 3);
 		if(tm == 1)
 			t = floor(now) + 1.0 + (double)((r >> 54) & 1) + (ac->b == 7 ? 0.5 : 0.0);
 		else {
